@@ -213,6 +213,8 @@ func (m *CPU) flush(pc int32) {
 	m.executeBus.Clean()
 	m.writeBus.Clean()
 	m.ctx.Flush()
+	// The line fetches of the flushed loads will never complete
+	m.memoryManagementUnit.pendings = nil
 }
 
 func (m *CPU) isEmpty() bool {
